@@ -147,7 +147,15 @@ func (c *channel) enqueue(req request, responseChan chan<- response, streaming b
 	// with error if the node is closed
 	select {
 	case <-c.parentCtx.Done():
-		c.routeResponse(req.msg.Metadata.MessageID, response{nid: c.node.ID(), err: fmt.Errorf("channel closed")})
+		resp := response{nid: c.node.ID(), err: fmt.Errorf("channel closed")}
+		if streaming {
+			// The reply channel of a streaming call may already be full (the receiver has
+			// reported the closed stream), and its consumer is started only after all
+			// requests have been enqueued: the caller must not block on it here.
+			go c.routeResponse(req.msg.Metadata.MessageID, resp)
+		} else {
+			c.routeResponse(req.msg.Metadata.MessageID, resp)
+		}
 		return
 	case <-req.ctx.Done():
 		// the sender may be busy with (or blocked on) an earlier message for an arbitrarily
